@@ -508,3 +508,8 @@ T('C18', 'outer-regions-strict-dedup', [('src/mbi/region_graph.py', "           
 # ---- C02 near-miss round
 T('C02', 'krondot-normaliser-by-elimination', [(GM, "        for attr, Q in zip(elim, matrices):", "        Z = variable_elimination(factors, elim).sum()\n        for attr, Q in zip(elim, matrices):"), (GM, "        return result.datavector(flatten=False) * self.total / np.exp(logZ)", "        return result.datavector(flatten=False) * self.total / Z")])
 K('C02', 'krondot-normaliser-from-answers', [(GM, "        result = result.transpose(['%s-answer'%a for a in elim])\n        return result.datavector(flatten=False) * self.total / np.exp(logZ)", "        result = result.transpose(['%s-answer'%a for a in elim])\n        Z = result.sum()\n        return result.datavector(flatten=False) * self.total / Z")], 've-equations')
+
+# ---- C12 two-sweep schedule (near-miss round)
+_MP_OLD = "        edges = set()\n        messages = [(a,b) for a,b in self.tree.edges()] + [(b,a) for a,b in self.tree.edges()]\n        for m1 in messages:\n            for m2 in messages:\n                if m1[1] == m2[0] and m1[0] != m2[1]:\n                    edges.add( (m1, m2) )\n        G = nx.DiGraph()\n        G.add_nodes_from(messages)\n        G.add_edges_from(edges)\n        return list(nx.topological_sort(G)) "
+T('C12', 'schedule-two-sweeps', [(JT, _MP_OLD, "        root = nx.center(self.tree)[0]\n        down = list(nx.dfs_edges(self.tree, root))\n        up = [(b,a) for a,b in reversed(down)]\n        return up + down")])
+K('C12', 'schedule-two-sweeps-collect-not-reversed', [(JT, _MP_OLD, "        root = nx.center(self.tree)[0]\n        down = list(nx.dfs_edges(self.tree, root))\n        up = [(b,a) for a,b in down]\n        return up + down")], 'schedule')
